@@ -533,6 +533,49 @@ fn sweep(cfg: &Cfg, rep: &Reporter, ev_: &mut Evidence, targets: &[Target]) {
                         for c in o1.stack.iter().chain(o1.vars.iter()) {
                             collect_tagged(c, &mut found);
                         }
+                        // computed results are bare: a tagged value on top level of the result must be an
+                        // element taken out of an argument, unless the word merely moves its arguments
+                        // (or is an identity conversion)
+                        const MOVERS: [&str; 8] = ["dup", "drop", "swap", "over", "rot", ">int", ">real", "depth"];
+                        if !tg.name.starts_with("template:") && !MOVERS.contains(&tg.name.as_str()) {
+                            let mut inner = BTreeSet::new();
+                            for c in &cells {
+                                match c.value() {
+                                    Cell::Vector(v) => v.iter().for_each(|x| collect_tagged(x, &mut inner)),
+                                    Cell::Map(m) => m.iter().for_each(|(k, v)| {
+                                        collect_tagged(k, &mut inner);
+                                        collect_tagged(v, &mut inner);
+                                    }),
+                                    _ => {}
+                                }
+                                // tags of an argument are ordinary values too (`tags`, `get-tag` are excluded words)
+                            }
+                            // arguments the word did not consume are still where they were pushed: not results
+                            // (how many arguments the word consumes is measured: the fewest top arguments
+                            // with which it no longer underflows)
+                            let mut arity = cells.len();
+                            for j in 0..cells.len() {
+                                let o = run_case(&base, &cells[cells.len() - j..], &tg.src);
+                                if o.kind != "StackUnderflow" && o.sentinel_ok {
+                                    arity = j;
+                                    break;
+                                }
+                            }
+                            let untouched = (cells.len() - arity).min(o1.stack.len());
+                            let kept: Vec<String> = o1.stack[untouched..].iter().filter(|r| matches!(r, Cell::WithTag(_))).map(render).filter(|r| !inner.contains(r)).collect();
+                            if !kept.is_empty() {
+                                rep.report_w(&format!("tag-kept:{}", tg.name), wt(weight, &program(&vals)), || {
+                                    jo(vec![
+                                        ("kind", js("sweep")),
+                                        ("what", js("a computed result still carries the tags of an argument")),
+                                        ("tagged_program", js(program(&vals))),
+                                        ("tagged", outcome_json(&o1)),
+                                        ("tagged_results_that_are_not_elements_of_an_argument", J::A(kept.iter().map(|s| js(s.clone())).collect())),
+                                    ])
+                                });
+                                return false;
+                            }
+                        }
                         let leaked: Vec<&String> = found.iter().filter(|f| !allowed.contains(*f)).collect();
                         if !leaked.is_empty() {
                             rep.report_w(&format!("tag-leak:{}", tg.name), wt(weight, &program(&vals)), || {
